@@ -112,16 +112,35 @@ def kindOf (name : List Char) : Option NameKind :=
    .thresh, .pk, .pkh, .pk_k, .pk_h, .older, .after, .hash .sha256, .hash .hash256, .hash .ripemd160,
    .hash .hash160, .multi, .multi_a].find? fun k => k.chars == name
 
-/-- `[0-9]+` then `int()`. -/
+/-- `_NUMBER = [0-9]{1,10}` (ten digits spell every 32-bit lock time; a longer run is refused) then
+    `int()`. -/
 def parseDec (s : List Char) : Option Nat :=
-  if s.isEmpty || !s.all Char.isDigit then none else some (Nat.ofDigitChars 10 s 0)
+  if s.isEmpty || !s.all Char.isDigit || decide (s.length > 10) then none
+  else some (Nat.ofDigitChars 10 s 0)
+
+/-- ASCII white space, which `bytes.fromhex` skips between two bytes. -/
+def isWs (c : Char) : Bool := c == ' ' || c == '\t' || c == '\n' || c == '\r' || c == '\x0b' || c == '\x0c'
+
+/-- `bytes.fromhex`: pairs of hex digits, white space allowed between pairs. -/
+def fromHexWs : List Char → Option Bytes
+  | [] => some []
+  | [c] => if isWs c then some [] else none
+  | c :: d :: rest =>
+    if isWs c then fromHexWs (d :: rest)
+    else
+      match hexVal? c, hexVal? d, fromHexWs rest with
+      | some x, some y, some r => some (UInt8.ofNat (16 * x + y) :: r)
+      | _, _, _ => none
 
 /-- a raw public key in hex: the context's size (a tapscript also reads the 33-byte SEC spelling
     of an x-only key and writes its 32 bytes). -/
 def parseKey (ctx : Ctx) (s : List Char) : Option Key :=
-  match fromHexChars s with
+  match fromHexWs s with
   | none => none
   | some b =>
+    -- 32 bytes of hex written with white space are read by btclib as a PRIVATE key (BIP380 key
+    -- expressions are C14's): outside this model, refused here, never generated by the harness
+    if s.any isWs && b.length == 32 then none else
     match ctx, b with
     | .tapscript, p :: rest => if rest.length = 32 ∧ (p = 2 ∨ p = 3) then some rest else some b
     | _, _ => some b
@@ -207,7 +226,7 @@ def pLeaf (ctx : Ctx) (k : NameKind) (arg : List Char) : Option Ms :=
   | .pk_h => (parseKey ctx arg).map .pk_h
   | .older => (parseDec arg).map .older
   | .after => (parseDec arg).map .after
-  | .hash h => (fromHexChars arg).map (.hash h)
+  | .hash h => (fromHexWs arg).map (.hash h)
   | .multi =>
     match splitCommas arg with
     | t :: k1 :: ks => (parseDec t).bind fun t => (parseKeys ctx (k1 :: ks)).map (.multi t)
@@ -249,6 +268,24 @@ def pExpr (ctx : Ctx) : Nat → P Ms
             (pw r).bind fun (x, r) => (pMoreWith pw r.length.succ r).map fun (xs, r) => (.thresh k x xs, r)
         | some k => (argSpan r).bind fun (arg, r) => (pLeaf ctx k arg).map fun n => (n, r)
       | _ => none
+
+def digitsOK (n : Nat) : Bool := decide ((decChars n).length ≤ 10)
+
+mutual
+/-- every number of the expression is written with at most ten digits (what `_NUMBER` reads back;
+    true of every lock time, and of any threshold below 10^10). -/
+def numsOK : Ms → Bool
+  | .older n | .after n => digitsOK n
+  | .multi k _ | .multi_a k _ => digitsOK k
+  | .wrap _ x => numsOK x
+  | .bin _ x y => numsOK x && numsOK y
+  | .andor x y z => numsOK x && numsOK y && numsOK z
+  | .thresh k x xs => digitsOK k && numsOK x && numsOKL xs
+  | _ => true
+def numsOKL : MsL → Bool
+  | .nil => true
+  | .cons x xs => numsOK x && numsOKL xs
+end
 
 /-- the syntax of `parse`: the whole text is one wrapped expression. -/
 def parseSyntax (ctx : Ctx) (s : List Char) : Option Ms :=
